@@ -253,7 +253,7 @@ PROPS["C07"] = {
         lane("TestMatrix", "matrix", 0, 0, norapid=True, timeout_quick=900),
         lane("TestAccept", "accept", 400, 2500, shards=16),
         lane("TestGarbage", "garbage", 1500, 8000, shards=16, must_classes=["kind:mutated", "kind:bcl", "kind:bytes"]),
-        lane("TestSemantic", "semantic", 400, 2500, shards=16, must_classes=["semantic:cross-file-cycle", "semantic:unknown-type", "semantic:required-and-optional"]),
+        lane("TestSemantic", "semantic", 400, 2500, shards=16, must_classes=["semantic:cross-file-cycle", "semantic:unknown-type", "semantic:required-and-optional", "semantic-at:oneof", "semantic-at:request", "semantic-at:inline-object", "semantic-at:entity-event", "semantic:field:unknown-enum"]),
         fuzz("FuzzCompile"),
     ],
 }
@@ -361,7 +361,7 @@ PROPS["C04"] = {
     "rule": ("readback: j5sgen.Draw (<=2 packages x <=2 files). Non-trivial: at least one rule, list rule, key format, flatten or description is present. Distinct by hash of the sources."),
     "assumptions": ["nested / inline types are named <Parent>_<Child> in the schema set (the reader's convention for nested messages)"],
     "lanes": [
-        lane("TestReadback", "readback", 300, 1500, shards=16, must_classes=["rules:string", "rules:integer", "rules:array", "list:string", "key:custom", "flatten", "description"]),
+        lane("TestReadback", "readback", 300, 1500, shards=16, must_classes=["rules:string", "rules:integer", "rules:array", "rules:enum:names-unspecified", "rules:enum:several-names", "list:string", "key:custom", "flatten", "description"]),
     ],
 }
 
